@@ -282,6 +282,19 @@ func Grammar(tier string, v2 bool) []GrammarItem {
 					name = "returning"
 				}
 				c := gCollection(u, name, kt, ent, allCollectionMethods, re)
+				if re {
+					// REST methods with query parameters of their own (batch methods then get a generated
+					// <Method>Params struct that also carries the ids)
+					for _, m := range c.Methods {
+						switch m.Name {
+						case "get", "batch_get", "batch_delete", "batch_update", "batch_partial_update", "get_all", "delete":
+							m.Params = []*Field{Opt("extra", P(String)), Opt("flag", P(Bool))}
+						}
+						if m.Name == "get_all" {
+							m.Paging = true
+						}
+					}
+				}
 				c.Methods = append(c.Methods,
 					&Method{Kind: "FINDER", Name: "byKey", Params: []*Field{Req("k", kt), Opt("ks", ArrayOf(kt))}, Return: ent, Paging: true, Metadata: ent},
 					&Method{Kind: "ACTION", Name: "entityAction", OnEntity: true, Params: []*Field{Req("k", kt)}, Return: kt})
